@@ -31,6 +31,10 @@ func RandomHistories(w *WorldJSON, seed int64, n, depth int, routers []string, f
 				cfg.Policy.Imp = []string{"", "", "u2"}[rng.Intn(3)]
 				cfg.Policy.Drop = []string{"", "email"}[rng.Intn(2)]
 			}
+			if focus == "issue" {
+				cfg.Alg = []string{"ES256", "RS256", "ES384", "EdDSA", "ES512", "PS256", "RS384"}[rng.Intn(7)]
+				cfg.Policy.DefType = []string{"", "refresh", "access", "id"}[rng.Intn(4)]
+			}
 			if focus == "clientauth" && rng.Intn(4) == 0 {
 				cfg.CC, cfg.TE, cfg.Dev = rng.Intn(2) == 0, rng.Intn(2) == 0, rng.Intn(2) == 0
 			}
@@ -172,6 +176,8 @@ func (g *gen) uriOf(c string) string {
 }
 
 var focusWeights = map[string]map[string]int{
+	"issue": {"Authorize": 4, "Login": 4, "Callback": 6, "CodeExchange": 8, "Refresh": 5, "DeviceAuthorize": 2, "Approve": 2, "Poll": 4,
+		"ClientCreds": 2, "JWTBearer": 2, "TokenExchange": 5},
 	"authorize": {"Authorize": 10, "Login": 5, "Callback": 8, "CodeExchange": 2},
 	"code":     {"Authorize": 4, "Login": 4, "Callback": 5, "CodeExchange": 10, "Refresh": 1, "UserInfo": 1, "EndSession": 1},
 	"refresh":  {"Authorize": 3, "Login": 3, "Callback": 4, "CodeExchange": 5, "Refresh": 10, "Revoke": 1},
